@@ -117,6 +117,13 @@ def main(argv):
                 if unmatched:
                     last_fail["case"] = case
                     last_fail["failures"] = unmatched
+                    # provisional record: if this interpreter is stopped while shrinking, the runner still gets the violation
+                    best = last_fail.get("best")
+                    if best is None or len(core.canon_json(case)) < best:
+                        last_fail["best"] = len(core.canon_json(case))
+                        with open(out + ".partial", "w") as pf:
+                            pf.write(core.canon_json({"family": fam_name, "shard": shard, "violations": violations + [
+                                {"signature": list(unmatched[0].signature()), "case": case, "failures": [f.to_json() for f in unmatched]}]}))
                     raise Violation(repr(unmatched[0]))
 
             try:
@@ -159,10 +166,11 @@ def main(argv):
     }
     with open(out, "w") as f:
         f.write(core.canon_json(report))
-    try:
-        os.unlink(cur_path)
-    except OSError:
-        pass
+    for extra in (cur_path, out + ".partial"):
+        try:
+            os.unlink(extra)
+        except OSError:
+            pass
     return 0
 
 
